@@ -87,6 +87,19 @@ impl<'a> SendBlocksProofProcess<'a> {
             }
         }
 
+        // The request was sent before the stored tip was replaced by a fork: the response is a
+        // valid proof for the abandoned branch.
+        if self.protocol.is_replaced_header(last_header.header()) {
+            debug!(
+                "peer {} send a proof for a last state which is not in the stored chain",
+                self.peer_index
+            );
+            self.protocol
+                .peers()
+                .mark_fetching_headers_timeout(self.peer_index);
+            return Status::ok();
+        }
+
         let headers: Vec<_> = self
             .message
             .headers()
